@@ -106,3 +106,8 @@ def parse_datagram(b):
     if o is None:
         return None
     return ((b[0] // 16) % 4, b[1], b[2] * 256 + b[3], b[4:4 + tkl], o[0], o[1])
+
+
+def nr_suppressed(no_response, code):
+    """RFC 7967 section 2: a response of class c (2, 4, 5) is suppressed iff bit c-1 of the No-Response value is set."""
+    return (no_response // 2 ** (code // 32 - 1)) % 2 == 1
